@@ -82,6 +82,10 @@ def canonL : List Val → List Json
   | v :: vs => v.canon :: canonL vs
 end
 
+/-- what `Settings.save` hands to the file: `to_serializable` turns an ndarray into a list
+(`.tolist()`), `json.dump` writes a tuple as an array -/
+def toSerializable (v : Val) : Json := v.canon
+
 mutual
 /-- a structurally equal value all of whose containers are new objects, numbered from `n`
 (`copy.deepcopy`, or the evaluation of a literal expression); returns the next free location -/
@@ -545,11 +549,10 @@ def mutate (σ : State) (g : Nat) (attr : String) (path : List Step) (last : Ste
     match resolve root path with
     | none => none
     | some (l, k, cs) =>
-      let r := v.relabel σ.next
-      match writeAt k cs last r.1 with
+      match writeAt k cs last (v.relabel σ.next).1 with
       | none => none
       | some (k', cs') =>
-        some { σ with next := r.2, groups := σ.groups.map (Group.subst l k' cs') }
+        some { σ with next := (v.relabel σ.next).2, groups := σ.groups.map (Group.subst l k' cs') }
 
 def setField (σ : State) (g : Nat) (attr : String) (v : Val) (n : Nat) : Option State :=
   match σ.groups[g]? with
